@@ -425,6 +425,27 @@ def _aff_tuple(e, var, fl, at):
     return None
 
 
+def _aff_names(e):
+    """affine form {name: coeff, 1: const} of an integer expression over plain names"""
+    if isinstance(e, ast.Name):
+        return {e.id: 1}
+    if isinstance(e, ast.Constant) and isinstance(e.value, int) and not isinstance(e.value, bool):
+        return {1: e.value}
+    if isinstance(e, ast.UnaryOp) and isinstance(e.op, ast.USub):
+        a = _aff_names(e.operand)
+        return None if a is None else {k: -v for k, v in a.items()}
+    if isinstance(e, ast.BinOp) and isinstance(e.op, (ast.Add, ast.Sub)):
+        a, b = _aff_names(e.left), _aff_names(e.right)
+        if a is None or b is None:
+            return None
+        sg = 1 if isinstance(e.op, ast.Add) else -1
+        out = dict(a)
+        for k, v in b.items():
+            out[k] = out.get(k, 0) + sg * v
+        return {k: v for k, v in out.items() if v != 0}
+    return None
+
+
 def r103(ctx, f, loop, path_p, listname):
     rid = "R-10.3"
     fl = flow_of(f)
@@ -467,14 +488,45 @@ def r103(ctx, f, loop, path_p, listname):
     L = sel[0]
     var = L.target.id if isinstance(L.target, ast.Name) else {x.id: k for k, x in enumerate(L.target.elts)}
     accs = [n for n in ast.walk(L) if isinstance(n, ast.AugAssign) and isinstance(n.target, ast.Name) and isinstance(n.op, ast.Add) and _tuple_comp(n.value, var) is not None]
-    if len(accs) != 1:
+    affine_accs = []
+    if not accs:
+        # a summand computed from several components (`stop - start`): compared through the record the scan appends
+        for n in ast.walk(L):
+            if isinstance(n, ast.AugAssign) and isinstance(n.target, ast.Name) and isinstance(n.op, ast.Add):
+                af = _aff_tuple(n.value, var, fl, cfg.node_of(n))
+                if af is not None and any(isinstance(k, tuple) for k in af):
+                    affine_accs.append((n, af))
+    if len(accs) != 1 and len(affine_accs) != 1:
         raise AnalysisError("R-10.3: running sum `acc += seg[c]` not found in the selection loop")
-    acc = accs[0]
-    accname = acc.target.id
-    if _tuple_comp(acc.value, var) == ccomp:
-        ctx.ok(rid, acc, f"the running sum adds the component that the total sums (component {ccomp})")
+    if accs:
+        acc = accs[0]
+        if _tuple_comp(acc.value, var) == ccomp:
+            ctx.ok(rid, acc, f"the running sum adds the component that the total sums (component {ccomp})")
+        else:
+            ctx.bad(rid, acc, f"the running sum of the selection adds component {_tuple_comp(acc.value, var)} of a segment, the total sums component {ccomp}: segments are not drawn in proportion to their frame counts", construct=short(acc, 50))
     else:
-        ctx.bad(rid, acc, f"the running sum of the selection adds component {_tuple_comp(acc.value, var)} of a segment, the total sums component {ccomp}: segments are not drawn in proportion to their frame counts", construct=short(acc, 50))
+        acc, af = affine_accs[0]
+        recs = [c for c in ast.walk(loop) if isinstance(c, ast.Call) and isinstance(c.func, ast.Attribute) and c.func.attr == "append" and isinstance(c.func.value, ast.Name) and c.func.value.id == listname and c.args and isinstance(c.args[0], ast.Tuple)]
+        if not recs:
+            raise AnalysisError("R-10.3: the record appended by the scan was not found (cannot compare a computed summand)")
+        for rc in recs:
+            comps = [_aff_names(x) for x in rc.args[0].elts]
+            if any(c is None for c in comps) or ccomp >= len(comps):
+                raise AnalysisError("R-10.3: the components of the appended record are not affine in the scan's counters (cannot decide)")
+            tot = {1: af.get(1, 0)}
+            for k, co in af.items():
+                if isinstance(k, tuple):
+                    for nm, v in comps[k[1]].items():
+                        tot[nm] = tot.get(nm, 0) + co * v
+            diff = dict(tot)
+            for nm, v in comps[ccomp].items():
+                diff[nm] = diff.get(nm, 0) - v
+            diff = {k: v for k, v in diff.items() if v != 0}
+            if not diff:
+                ctx.ok(rid, acc, f"the running sum adds `{short(acc.value, 30)}`, which equals the counted component {ccomp} of every record the scan appends")
+            else:
+                ctx.bad(rid, acc, f"the running sum of the selection adds `{short(acc.value, 30)}`, which differs from the frame count the total sums (component {ccomp} of `{short(rc.args[0], 40)}`) by {diff.get(1, 0) if set(diff) == {1} else diff}: the windows of the draw are shifted, early segments are over-picked and the last one can never be picked - segments are not drawn in proportion to their frame counts", construct=short(acc, 50))
+    accname = acc.target.id
     inside = {id(x) for x in ast.walk(L)}
     inits = [d for d, sfx in fl.rd(accname, cfg.node_of(L)) if not sfx and id(d.stmt) not in inside]
     if inits and all(d.kind == "assign" and isinstance(d.value, ast.Constant) and d.value.value == 0 for d in inits):
@@ -1249,6 +1301,8 @@ _SCAN_EMIT = "            path_arr.append((isave, i + 1, i - isave))"
 _JUMP = "        if (op1 < left and op2 >= right) or (op2 < left and op1 >= right):\n            pass\n        elif op2 >= left > op1 and not key_l:"
 
 VARIANTS = [
+    B("c10-selection-sums-span-not-count", TIS, "        for ipath in path_arr:\n            sum_frames += ipath[2]\n", "        for ipath in path_arr:\n            sum_frames += ipath[1] - ipath[0]\n", "R-10.3", control=True, why="seeded C10_g"),
+    K("c10-keep-selection-sums-recomputed-count", TIS, "        for ipath in path_arr:\n            sum_frames += ipath[2]\n", "        for ipath in path_arr:\n            sum_frames += ipath[1] - ipath[0] - 1\n"),
     B("c10-selection-against-last-interface", TIS, "        trial_path, wf_int[0], wf_int[2], return_seg=True, ens_set=ens_set", "        trial_path, wf_int[0], ens_set[\"interfaces\"][2], return_seg=True, ens_set=ens_set", "R-10.5", why="seeded C10_f"),
     K("c10-keep-selection-interfaces-unpacked", TIS, "    wf_int = list([ens_set[\"interfaces\"][1]] * 2) + [intf_cap]\n", "    _lo, middle, _hi = ens_set[\"interfaces\"]\n    wf_int = [middle, middle, intf_cap]\n"),
     # R-10.2: the transducer
